@@ -1,0 +1,16 @@
+//go:build verif
+
+package operator
+
+import "time"
+
+// VerifWatermark exposes the composite watermark of the registry (what processEventBatch tells the handler)
+// to the verification harness (build tag verif only).
+func (r *TimerRegistry) VerifWatermark() time.Time { return r.watermark }
+
+// VerifReady reports whether the operator accepts events (registered and deployed).
+func (o *Operator) VerifReady() bool { return o.status.IsReady() }
+
+// VerifWatermark is the composite watermark of the operator's timer registry. Only meaningful between
+// HandleEvent calls (HandleEvent returns after the event loop processed the event).
+func (o *Operator) VerifWatermark() time.Time { return o.timerRegistry.watermark }
